@@ -142,6 +142,8 @@ where
     }
 
     fn slide(&mut self) -> Option<char> {
+        #[cfg(rustpython_parser_verif)]
+        crate::verif::step();
         self.window.rotate_left(1);
         let next = self.source.next();
         *self.window.last_mut().expect("never empty") = next;
@@ -678,8 +680,24 @@ where
         Ok(IndentationLevel { tabs, spaces })
     }
 
+    #[cfg(rustpython_parser_verif)]
+    fn verif_boundary(&self) {
+        crate::verif::lexer_boundary(
+            self.location.into(),
+            self.at_begin_of_line,
+            self.nesting,
+            self.indentations
+                .indent_stack
+                .iter()
+                .map(|level| (level.tabs, level.spaces))
+                .collect(),
+        );
+    }
+
     // Push/pop indents/dedents based on the current indentation level.
     fn handle_indentations(&mut self) -> Result<(), LexicalError> {
+        #[cfg(rustpython_parser_verif)]
+        self.verif_boundary();
         let indentation_level = self.eat_indentation()?;
 
         if self.nesting != 0 {
@@ -1136,6 +1154,8 @@ where
                 } else {
                     #[cfg(feature = "full-lexer")]
                     self.emit((Tok::NonLogicalNewline, TextRange::new(tok_start, tok_end)));
+                    #[cfg(rustpython_parser_verif)]
+                    self.verif_boundary();
                 }
             }
             ' ' | '\t' | '\x0C' => {
